@@ -103,6 +103,10 @@ pub fn alphabet(rng: &mut Rng, letters_only: bool) -> Vec<u8> {
     while a.len() < n {
         let b = if letters_only {
             *rng.pick(&[b'a', b'b', b'c', b'A', b'B', b'C', b'z', b'Z'])
+        } else if rng.chance(1, 6) {
+            // any byte value at all: the pool names the values known to matter,
+            // but no value may be special
+            rng.below(256) as u8
         } else {
             *rng.pick(&POOL)
         };
